@@ -36,12 +36,12 @@ def run(rep, tier_, rng):
     # ifib as an algorithm (Dijkstra's logarithmic iteration + cache below 250): the Gallina model of the routine (Algo/Intfun.v,
     # proved equal to the recurrence for every n and call history) is run inside Coq on the same call sequence as the live code
     fib_seq = [rng.choice([rng.randint(-300, 300), rng.randint(240, 260), rng.randint(0, 40), rng.randint(1000, 6000 if big else 3000)])
-               for _ in range(60 if big else 30)] + [249, 250, 251, 249, -250, 0, 1, -1, 2]
+               for _ in range(60 if big else 30)] + [249, 250, 251, 249, -250, 0, 1, -1, 2, 4, -4, -4, 6, -6, 100, -100, -100, -7, -7, 248, -248]
     LI.ifib.__defaults__[0].clear()
     add("zeqb_list (fib_calls [] %s) %s" % (zl(fib_seq), zl([int(LI.ifib(n)) for n in fib_seq])), fn="ifib (model of the algorithm, call history)",
         range=[min(fib_seq), max(fib_seq)])
     # ifac2 likewise: the model of the memoised routine (two dictionaries, cache limit) against the live one on one call sequence
-    f2_seq = [rng.choice([rng.randint(0, 60), rng.randint(990, 1012), rng.randint(0, 2200 if big else 1300)]) for _ in range(50 if big else 25)] + [1001, 999, 1000, 1002, 7, 0, 1]
+    f2_seq = [rng.choice([rng.randint(0, 60), rng.randint(990, 1012), rng.randint(0, 2200 if big else 1300)]) for _ in range(50 if big else 25)] + [1001, 999, 1000, 1002, 7, 0, 1, 1501, 1201, 1400, 1300, 1003, 1005, 998]
     d0, d1 = LI.ifac2.__defaults__[0]
     d0.clear(); d0[0] = 1; d1.clear(); d1[1] = 1
     add("zeqb_list (fac2_calls %d ([(0, 1)], [(1, 1)]) %s) %s" % (LI.MAX_FACTORIAL_CACHE, zl(f2_seq), zl([int(LI.ifac2(n)) for n in f2_seq])),
@@ -90,7 +90,11 @@ def run(rep, tier_, rng):
         which = rng.randrange(7)
         if which == 0: v, ex, nm = mp.factorial(n), "zfact %d" % n, "factorial"
         elif which == 1: v, ex, nm = mp.fac2(n), "zfact2 %d" % n, "fac2"
-        elif which == 2: v, ex, nm = mp.fib(n), "zfib %d" % n, "fib"
+        elif which == 2:
+            if rng.random() < 0.45 and n > 0:       # negative arguments: F(-n) = (-1)^(n+1) F(n)
+                v, ex, nm = mp.fib(-n), "((-1) ^ %d * zfib %d)" % (n + 1, n), "fib"
+            else:
+                v, ex, nm = mp.fib(n), "zfib %d" % n, "fib"
         elif which == 3:
             n = min(n, 600); v, ex, nm = mp.binomial(n, k), "binom %d %d" % (n, k), "binomial"
         elif which == 4:
